@@ -45,7 +45,9 @@ def gen_float_case(rng, tier):
         nx = ny = 2 ** zoom
     else:
         nx, ny = rng.randint(1, 4), rng.randint(1, 4)
-        ax, ay, dh = rng.choice([-120.0, 0.0, 10.5, -0.3, 170.1]), rng.choice([30.0, -5.0, 0.25, -41.7]), rng.choice([0.1, 0.5, 1.0, 0.05])
+        # also lattices east of the antimeridian / in the 0..360 convention (no wrap-around of longitudes >= 180)
+        ax, ay, dh = rng.choice([-120.0, 0.0, 10.5, -0.3, 170.1, 179.5, 200.0, 359.5]), rng.choice([30.0, -5.0, 0.25, -41.7, 0.0]), \
+            rng.choice([0.1, 0.5, 1.0, 0.05])
         origins = [[ax + i * dh, ay + j * dh] for i in range(nx) for j in range(ny)]
         if nx * ny > 3 and rng.random() < 0.3:
             origins.pop(rng.randrange(len(origins)))     # a hole
@@ -79,6 +81,15 @@ def gen_float_case(rng, tier):
             lon, lat = o[0] + dhf / 2, o[1] + dhf / 2
             if rng.random() < 0.3:
                 lon, lat = o[0], o[1]                                   # the cell's own corner
+                # signed zero / subnormal / float32-valued coordinates: -0.0 and 5e-324 belong to the cell whose edge is 0.0
+                if lon == 0.0 and rng.random() < 0.5:
+                    lon = rng.choice([-0.0, 5e-324])
+                if lat == 0.0 and rng.random() < 0.5:
+                    lat = rng.choice([-0.0, 5e-324])
+            elif rng.random() < 0.1:
+                lon, lat = float(numpy.float32(lon)), float(numpy.float32(lat))
+                if not (o[0] + dhf * 0.2 < lon < o[0] + dhf * 0.8 and o[1] + dhf * 0.2 < lat < o[1] + dhf * 0.8):
+                    lon, lat = o[0] + dhf / 2, o[1] + dhf / 2
             if spatial_band and rng.random() < 0.6:
                 lon = _ulps(o[0], -rng.choice([1, 2, 3])) if rng.random() < 0.5 else lon
                 lat = _ulps(o[1], -rng.choice([1, 2, 3])) if rng.random() < 0.5 else lat
@@ -381,8 +392,175 @@ def wide_case(run, drv, pending, case):
                                   got["smc"].astype(int).tolist(), fl)))
 
 
+# ----------------------------------------------------------------------------- SIZE THRESHOLDS: long catalogs, the interesting event early
+SIZE_THRESHOLDS = (500, 2000, 5000, 65536, 131072)
+
+
+def gen_size_case(rng, T, quad):
+    """a catalog of a little more than T events; ONE interesting event (outside the region / on the region's far edge / below the
+    first magnitude edge / a boundary point / nothing) at an EARLY position or at a block boundary (0, 1, T/2, T-1, T, T+1, last)"""
+    n = T + rng.choice([1, 3, 37, 129])
+    what = rng.choice(["outside", "outside", "outside-on-far-edge", "below-min", "boundary", "clean"])
+    pos = rng.choice([0, 1, 2, T // 2, T - 1, T, n - 1, 255, 256])
+    if quad:
+        where = dict(rkind="quad", zoom=rng.choice([1, 2]))
+    else:
+        # integer lattices (exact arithmetic), also east of the antimeridian and in the 0..360 convention
+        where = dict(rkind="cart", ax=rng.choice([-120.0, 0.0, 170.0, 178.0, 185.0, 300.0, 355.0]), ay=rng.choice([-40.0, 0.0, 30.0]),
+                     nx=rng.choice([2, 3, 7]), ny=rng.choice([2, 5]))     # not 1: a single column / row is open-ended (C01's known
+        # finding D4), the event "on the far edge" would be inside
+    return dict(kind="size", **where, n=n, T=T, what=what, pos=min(pos, n - 1), nbins=rng.choice([1, 4]),
+                mode=rng.choice(["bound", "list", "ndarray"]), seed=rng.randrange(2 ** 32))
+
+
+@_guarded
+def size_case(run, drv, pending, case):
+    from . import c03 as base
+    from csep.core.catalogs import CSEPCatalog
+    from csep.core.regions import CartesianGrid2D, QuadtreeGrid2D
+    rs = numpy.random.RandomState(case["seed"])
+    n, pos, what = int(case["n"]), int(case["pos"]), case["what"]
+    nb = int(case["nbins"])
+    edges = [4.0 + 0.5 * k for k in range(nb)]
+    bound = case["mode"] == "bound"
+    quad = case["rkind"] == "quad"
+    if quad:
+        region = QuadtreeGrid2D.from_single_resolution(int(case["zoom"]), magnitudes=numpy.array(edges) if bound else None)
+        b = _qt(region)
+        centres = numpy.column_stack(((b[:, 0] + b[:, 2]) / 2, (b[:, 1] + b[:, 3]) / 2))
+        corners = b[:, :2]
+        far = (180.0, float(centres[0, 1]))                # on the east edge of the domain: in no cell
+        out = (float(centres[0, 0]), 86.5)
+    else:
+        ax, ay, nx, ny = float(case["ax"]), float(case["ay"]), int(case["nx"]), int(case["ny"])
+        origins = numpy.array([[ax + i, ay + j] for i in range(nx) for j in range(ny)])
+        region = CartesianGrid2D.from_origins(origins, dh=1.0, magnitudes=numpy.array(edges) if bound else None)
+        po = numpy.array([[float(v) for v in pl.origin] for pl in region.polygons])
+        centres, corners = po + 0.5, po
+        far = (ax + nx, ay + 0.5)                          # exactly on the far (east) edge: outside
+        out = (ax - 0.5, ay + 0.5) if rs.random_sample() < 0.5 else (ax + 0.5, ay + ny + 3.25)
+    ncell = len(centres)
+    cells = rs.randint(0, ncell, size=n)
+    lon, lat = centres[cells, 0].copy(), centres[cells, 1].copy()
+    bins = rs.randint(0, nb, size=n)
+    m = numpy.array(edges)[bins] + rs.choice([0.0, 0.125, 0.25], size=n)
+    cell_exp = cells.copy()
+    bin_exp = bins.copy()
+    if what == "outside":
+        lon[pos], lat[pos] = out
+        cell_exp[pos] = -1
+    elif what == "outside-on-far-edge":
+        lon[pos], lat[pos] = far
+        cell_exp[pos] = -1
+    elif what == "below-min":
+        m[pos] = edges[0] - 0.25
+        bin_exp[pos] = -1
+    elif what == "boundary":
+        lon[pos], lat[pos] = corners[cells[pos]]           # the cell's own south-west corner
+        dpos = (pos + 1) % n
+        lon[dpos], lat[dpos], m[dpos] = lon[pos], lat[pos], m[pos]       # and a duplicate of it right behind
+        cell_exp[dpos], bin_exp[dpos] = cell_exp[pos], bin_exp[pos]
+    data = numpy.zeros(n, dtype=CSEPCatalog.dtype)
+    data["id"] = numpy.arange(n).astype("S256")
+    data["origin_time"] = 1000 * numpy.arange(n)
+    data["longitude"], data["latitude"], data["magnitude"], data["depth"] = lon, lat, m, 10.0
+    snapshot = data.copy()
+    kw = {} if bound else dict(mag_bins=list(edges) if case["mode"] == "list" else numpy.array(edges))
+    inside = cell_exp >= 0
+    e_sc = numpy.bincount(cell_exp[inside], minlength=ncell)
+    e_mc = numpy.bincount(bin_exp[bin_exp >= 0], minlength=nb)
+    anyout, anybelow = bool((~inside).any()), bool((bin_exp < 0).any())
+    e_smc = numpy.zeros((ncell, nb), dtype=int)
+    if not (anyout or anybelow):
+        numpy.add.at(e_smc, (cell_exp, bin_exp), 1)
+    run.case(dict(kind="size", n=n, what=what, pos=pos, rkind=case["rkind"]), ("size", tuple(sorted(case.items()))))
+    run.count(f"size:>{case['T']}:{case['rkind']}:{what}")
+
+    def fresh(arr=None):
+        return CSEPCatalog(data=(data if arr is None else arr).copy(), region=region)
+
+    def call(f):
+        try:
+            return numpy.asarray(f()).astype(numpy.int64)
+        except Exception:
+            return "E"
+    got = dict(sc=call(lambda: fresh().spatial_counts()), sep=call(lambda: fresh().spatial_event_probability()),
+               mc=call(lambda: fresh().magnitude_counts(**kw)), smc=call(lambda: fresh().spatial_magnitude_counts(**kw)))
+
+    def same(a, w):
+        return not isinstance(a, str) and a.shape == w.shape and numpy.array_equal(a, w)
+    tag = (f"{n} events (> {case['T']}), the {what} event at position {pos}: ")
+    # spatial_counts / occupancy: a Cartesian lookup may reject a catalog with an outside event or leave the event uncounted; it must
+    # never count it somewhere
+    for k, w in (("sc", e_sc), ("sep", (e_sc > 0).astype(int))):
+        ok = same(got[k], w) if (quad or not anyout) else (isinstance(got[k], str) or same(got[k], w))
+        if not ok:
+            run.oracle_failure(case, tag + f"{k} = {str(got[k])[:120]}; every event counted once in its own cell gives {str(w)[:120]}"
+                                           + ("" if not anyout else " (the outside event in no cell)"))
+            return
+    if not same(got["mc"], e_mc):
+        run.oracle_failure(case, tag + f"magnitude_counts = {str(got['mc'])[:120]}, exact {str(e_mc)[:120]}")
+        return
+    if anyout or anybelow:
+        if not isinstance(got["smc"], str):
+            run.oracle_failure(case, tag + "spatial_magnitude_counts returned although an event is outside the region / below the first "
+                                           f"magnitude edge (total {int(numpy.sum(got['smc']))} of {n} events)")
+            return
+    elif not same(got["smc"], e_smc):
+        run.oracle_failure(case, tag + "spatial_magnitude_counts differs from the exact recount")
+        return
+    # the same input in small pieces through the implementation: the pieces add up to the whole
+    if not anyout:
+        tot = numpy.zeros(ncell, dtype=numpy.int64)
+        step = 397
+        pieces = range(0, n, step) if n <= 6000 else list(range(0, 4 * step, step)) + [n - step]
+        for a in pieces:
+            r_ = call(lambda: fresh(data[a:a + step]).spatial_counts())
+            if isinstance(r_, str):
+                run.oracle_failure(case, tag + f"spatial_counts of the piece [{a}:{a + step}] raised")
+                return
+            tot += r_
+        if n <= 6000 and not numpy.array_equal(tot, got["sc"]):
+            run.oracle_failure(case, tag + "spatial_counts of the whole catalog differs from the sum over pieces of 397 events")
+            return
+    if not numpy.array_equal(data, snapshot):
+        run.oracle_failure(case, tag + "the caller's event array was modified")
+        return
+    if n <= 5200:
+        lons = ",".join(frac(float(v)) for v in lon)
+        lats = ",".join(frac(float(v)) for v in lat)
+        mags = ",".join(frac(float(v)) for v in m)
+        ed = ",".join(frac(x) for x in edges)
+        if quad:
+            q = drv.ask(" ".join(["c03_quadf"] + [",".join(frac(v) for v in b[:, c]) for c in range(4)] + [lons, lats, mags, ed, "none"]))
+        else:
+            cl = [(int(round(o[0] - float(case["ax"]))), int(round(o[1] - float(case["ay"])))) for o in po.tolist()]
+            q = drv.ask(" ".join(["c03_cartf"] + base.cart_args_of(region, cl, [1] * ncell) + [lons, lats, mags, ed, "none"]))
+        fl = [int(numpy.sum((m >= edges[k]) & ((m < edges[k + 1]) if k + 1 < nb else True))) for k in range(nb)]
+        cart_alt = (e_sc.tolist(), (e_sc > 0).astype(int).tolist())
+        canon = [("E" if isinstance(got[k], str) else got[k].tolist()) for k in ("sc", "sep", "mc", "smc")]
+        if not quad and anyout:            # the model rejects (the code as it is); "left uncounted" was accepted above
+            canon[0] = canon[1] = "E"
+        pending.append((case, q, (canon[0], canon[1], canon[2], canon[3], fl)))
+
+
+def _qt(region):
+    from .c17 import qt_bounds
+    return qt_bounds(region)
+
+
 def run_all(run, rng, tier, Driver):
     trusted_base_checks(run, rng, tier, Driver)
+    sdrv, spend = Driver(), []
+    for T in SIZE_THRESHOLDS:
+        reps = 1 if tier == "quick" else 4
+        for _ in range(reps):
+            size_case(run, sdrv, spend, gen_size_case(rng, T, quad=False))
+            if T <= 5000 or (tier != "quick" and T == 65536):
+                size_case(run, sdrv, spend, gen_size_case(rng, T, quad=True))
+    # one more above 2^16 with the outside event early, whatever the random choices above were
+    size_case(run, sdrv, spend, dict(gen_size_case(rng, 65536, quad=False), what="outside", pos=rng.choice([0, 1, 7, 4096, 65535])))
+    flush(run, sdrv, spend)
     drv, pending = Driver(), []
     for k in range(9 if tier == "quick" else 80):
         wide_case(run, drv, pending, gen_wide_case(rng, huge=(k == 0 or (tier != "quick" and k % 20 == 0))))
@@ -396,5 +574,5 @@ def run_all(run, rng, tier, Driver):
 
 def replay(run, case, Driver):
     drv, pending = Driver(), []
-    (wide_case if case.get("kind") == "wide" else float_case)(run, drv, pending, case)
+    {"wide": wide_case, "size": size_case}.get(case.get("kind"), float_case)(run, drv, pending, case)
     flush(run, drv, pending)
